@@ -157,6 +157,39 @@ def run(tier, replay=None):
             o2 = o2[mark + len(b"bytes to memory\n"):] if mark >= 0 else o2
             history.append({'key': "exe%d" % k, 'cfg': 'hexsim-exe', 'obs': "%d:%s:%s" % (p1.returncode, p1.stdout.hex(), pos1)})
             history.append({'key': "exe%d" % k, 'cfg': 'hextb-exe', 'obs': "%d:%s:%s" % (p2.returncode, o2.hex(), pos2)})
+        # `hextb -t`: what it prints is a function of the binary and the input (spec/TbTraceV; drift grade - no listed property speaks of it)
+        import re as _re
+        TL = _re.compile(rb'\[(\d+)\s*\] (\d+)\s+0x([0-9a-f]{2}) ([A-Z]+)\s*\n|input\((-?\d+)\)\n|output\((.), (-?\d+)\)\n|exit (-?\d+)\n', _re.S)
+        MNO = dict(asmlib.OPS); MNO.update({'OPR': 13, 'PFIX': 14, 'NFIX': 15, 'UNKNOWN': 12})
+        trecs = []
+        small = [k for k in range(len(allimgs)) if k not in () and sres[k]['status'] == 'exit' and sres[k]['steps'] <= 4000][: (60 if tier == "quick" else 100000)]
+        for k in small:
+            i, b, inp = allimgs[k]
+            wd = os.path.join(d, "exe"); shutil.rmtree(wd, ignore_errors=True); os.makedirs(wd)
+            p = vlib.sh([os.path.join(tdir, "hextb"), "-t", b, "+verilator+seed+%d" % (vlib.seed() + 21)], cwd=wd, input=inp, timeout=300)
+            o = p.stdout; mark = o.find(b"bytes to memory\n"); o = o[mark + len(b"bytes to memory\n"):] if mark >= 0 else o
+            lines = []; calls = []
+            for m in TL.finditer(o):
+                if m.group(1) is not None:
+                    lines.append([int(m.group(1)), int(m.group(2)), int(m.group(3), 16), MNO.get(m.group(4).decode(), -1)])
+                elif m.group(5) is not None:
+                    calls.append([2, xlib.w32(int(m.group(5))), 0])
+                elif m.group(6) is not None:
+                    calls.append([1, m.group(6)[0], xlib.w32(int(m.group(7)))])
+                else:
+                    calls.append([0, xlib.w32(int(m.group(8))), 0])
+            hdr, ws = rtllib.image_words(b)
+            trecs.append({'id': "%d|%s" % (k, i), 'k': k, 'img': ws, 'input': list(inp), 'lines': lines, 'calls': calls})
+        if trecs:
+            tcan = json.loads(json.dumps(next(r for r in trecs if len(r['lines']) > 3))); tcan['id'] = 'canary'; tcan['lines'][2][1] += 1
+            tverd = xlib.validate(trecs + [tcan], d, "c06tr", module="TbTraceV", cfg="TbTraceV.cfg")
+            if tverd[-1]['v'] != 'bad':
+                raise vlib.MachineryError("canary accepted by TbTraceV")
+            tdrift = [{'id': r['id'], 'why': v['why']} for r, v in zip(trecs, tverd[:-1]) if v['v'] == 'bad']
+            chk.set("hextb_trace_runs_conforming_to_TbTraceV", sum(1 for v in tverd[:-1] if v['v'] == 'ok')); chk.set("hextb_trace_lines", sum(v['n'] for v in tverd[:-1]))
+            chk.set("DRIFT_hextb_trace_runs_differing_from_TbTraceV", len(tdrift))
+            if tdrift:
+                chk.set("hextb_trace_drift_examples", tdrift[:3])
         # the longest binary the toolchain produces here: the X compiler written in X (tests/x/xhexb.x compiled by xcmp) compiling a source, and
         # then the binary IT produced, through both executables (standard output, the simout file it writes, status, input consumed)
         bwd = os.path.join(d, "boot"); os.makedirs(bwd, exist_ok=True)
